@@ -13,7 +13,7 @@ type WorkItem struct {
 	Kind     string         `json:"kind"` // explore | enum | replay
 	Scenario *Scenario      `json:"scenario,omitempty"`
 	Opts     ExploreOpts    `json:"opts"`
-	Enum     string         `json:"enum,omitempty"` // enumerator name
+	Enum     string         `json:"enum,omitempty"` // enumerator part (C14: "kill")
 	Shard    int            `json:"shard,omitempty"`
 	NShards  int            `json:"nshards,omitempty"`
 	Args     map[string]int `json:"args,omitempty"`
